@@ -198,8 +198,24 @@ def sentinel_write(out):
             saved.append((k, old))
         except Exception:
             pass
+    # dimensions are objects too: flip the unlimited flag of every
+    # dimension of the result
+    flipped = []
+    try:
+        for dk, dv in list(out.dimensions.items()):
+            if hasattr(dv, 'setunlimited'):
+                was = bool(dv.isunlimited())
+                dv.setunlimited(not was)
+                flipped.append((dv, was))
+    except Exception:
+        pass
 
     def restore():
+        for dv, was in flipped:
+            try:
+                dv.setunlimited(was)
+            except Exception:
+                pass
         for k, (d, m) in saved:
             v = out.variables[k]
             try:
